@@ -94,16 +94,7 @@ R.macro('PLANINV', ['s'], """(
 R.macro('CLOSED_EXCEPT', ['s', 'front'], """forall('Task','Task', lambda t, d: implies(d in DD(s)[t],
     (d in s.ALL) or exists('Inst', lambda i: (i in front) and (Inst_to_Task(i) == d))))""")
 
-R.contract('labtech.tasks:get_direct_dependencies',
-    params={'task': 'Inst'}, returns='List[Inst]', pure=True,
-    ensures=[
-        C("forall('Inst', lambda i: implies(i in result, Inst_to_Task(i) in deps(Inst_to_Task(task))))", 'sound', serves=('C02', 'C03', 'C01')),
-        C("forall('Task', lambda d: implies(d in deps(Inst_to_Task(task)), exists('Inst', lambda i: (i in result) and (Inst_to_Task(i) == d))))",
-          'complete-by-value', serves=('C02', 'C01', 'C03')),
-        C("forall('Inst', lambda i: implies(i in depinsts(task), i in result))",
-          'complete-by-instance: every dependency instance in the parameters is returned', serves=('C01', 'C02', 'C03')),
-    ],
-    note='verified separately against the value-tree spec (contracts/c60_values.py); used here through its contract only')
+# (the contract of labtech.tasks:get_direct_dependencies lives in c60_values.py, where its body is verified)
 
 R.contract('labtech.lab:TaskCoordinator.use_cache',
     self_type='Obj[TaskCoordinator]', params={'task': 'Task'}, returns='Bool', pure=True,
